@@ -123,6 +123,8 @@ def run(ctx):
             'parameters the caller supplied by keyword are recorded as if Gin had supplied them (or are removed before the bindings are merged in)',
             w.loc(mn), instance='minus-keyword')
 
+  from .common import record_before_call
+  record_before_call(ctx, 'C07.record')
   # ---- C07.defaults
   df = ctx.func('config._get_default_configurable_parameter_values')
   g2, facts2 = std_facts(prog, df)
